@@ -1402,7 +1402,15 @@ class PyCdlib:
 
                 d.set_extent_location(current_extent,
                                       current_extent - part_start)
-                if not d.is_parent() and d.file_entry is not None:
+                if d.is_parent():
+                    # The parent entry points at the File Entry of the directory
+                    # above (the root is its own parent), which has already
+                    # been assigned since we walk breadth-first.
+                    parent_entry = udf_file_entry.parent
+                    if parent_entry is None:
+                        parent_entry = udf_file_entry
+                    d.icb.log_block_num = parent_entry.extent_location() - part_start
+                elif d.file_entry is not None:
                     if d.is_dir():
                         udf_file_entries.append((d.file_entry, d))
                     else:
